@@ -175,6 +175,11 @@ typedef struct {
 	sqfs_xattr_id_t desc;
 	sqfs_xattr_entry_t key;
 	sqfs_istream_t *strm;
+	/* a failed seek/read leaves a meta reader with offset > data_used (the failed seek has already
+	 * replaced data_used, not offset): the next sequential read then copies size_t-wrapped amounts.
+	 * That is the meta reader's own defect (DESIGN F02 family), present in original and copy alike;
+	 * sequential reads are skipped until the next successful seek so that it cannot abort the run */
+	int stale;
 } slot_t;
 
 static env_t env[3];
@@ -556,11 +561,17 @@ static void run_op(int si, char **tok, int nt)
 	}
 	case K_META:
 		if (!strcmp(op, "seek") && nt >= 4) {
-			printf("ret=%d", sqfs_meta_reader_seek(obj, strtoull(tok[2], NULL, 10), strtoul(tok[3], NULL, 10)));
+			int ret = sqfs_meta_reader_seek(obj, strtoull(tok[2], NULL, 10), strtoul(tok[3], NULL, 10));
+			s->stale = ret != 0;
+			printf("ret=%d", ret);
 		} else if (!strcmp(op, "rd") && nt >= 3) {
 			size_t sz = strtoul(tok[2], NULL, 10);
-			sqfs_u8 *b = calloc(1, sz + 1);
-			int ret = sqfs_meta_reader_read(obj, b, sz);
+			sqfs_u8 *b;
+			int ret;
+			if (s->stale) { printf("skipped"); break; }
+			b = calloc(1, sz + 1);
+			ret = sqfs_meta_reader_read(obj, b, sz);
+			s->stale = ret != 0;
 			printf("ret=%d ", ret);
 			if (ret == 0) pdigest(b, sz); else fputs("-", stdout);
 			free(b);
@@ -669,10 +680,15 @@ static void run_op(int si, char **tok, int nt)
 			int ret = sqfs_xattr_reader_get_desc(obj, strtoul(tok[2], NULL, 10), &s->desc);
 			printf("ret=%d xattr=%llu count=%u size=%u", ret, (unsigned long long)s->desc.xattr, s->desc.count, s->desc.size);
 		} else if (!strcmp(op, "seek")) {
-			printf("ret=%d", sqfs_xattr_reader_seek_kv(obj, &s->desc));
+			int ret = sqfs_xattr_reader_seek_kv(obj, &s->desc);
+			s->stale = ret != 0;
+			printf("ret=%d", ret);
+		} else if (s->stale && (!strcmp(op, "rkey") || !strcmp(op, "rval") || !strcmp(op, "rkv"))) {
+			printf("skipped");
 		} else if (!strcmp(op, "rkey")) {
 			sqfs_xattr_entry_t *k = NULL;
 			int ret = sqfs_xattr_reader_read_key(obj, &k);
+			s->stale = ret != 0;
 			printf("ret=%d ", ret);
 			if (ret == 0) {
 				s->key = *k;
@@ -682,16 +698,19 @@ static void run_op(int si, char **tok, int nt)
 		} else if (!strcmp(op, "rval")) {
 			sqfs_xattr_value_t *v = NULL;
 			int ret = sqfs_xattr_reader_read_value(obj, &s->key, &v);
+			s->stale = ret != 0;
 			printf("ret=%d ", ret);
 			if (ret == 0) { pdigest(v->value, v->size); sqfs_free(v); }
 		} else if (!strcmp(op, "rkv")) {
 			sqfs_xattr_t *x = NULL;
 			int ret = sqfs_xattr_reader_read(obj, &x);
+			s->stale = ret != 0;
 			printf("ret=%d ", ret);
 			if (ret == 0) { printf("key=%s ", x->key); pdigest(x->value, x->value_len); sqfs_free(x); }
 		} else if (!strcmp(op, "all") && nt >= 3) {
 			sqfs_xattr_t *x = NULL, *it;
 			int ret = sqfs_xattr_reader_read_all(obj, strtoul(tok[2], NULL, 10), &x);
+			s->stale = ret != 0;
 			printf("ret=%d", ret);
 			if (ret == 0) {
 				for (it = x; it != NULL; it = it->next) {
@@ -794,7 +813,9 @@ int main(void)
 			if (!slot[0].live) { printf("COPY dead\n"); continue; }
 			printf("SHAPE ");
 			do_shape(slot[0].obj);
-			printf("\n");
+			printf(" file=%zu cmp=%zu\n",
+			       env[0].file ? ((sqfs_object_t *)env[0].file)->refcount : 0,
+			       env[0].cmp ? ((sqfs_object_t *)env[0].cmp)->refcount : 0);
 			fflush(stdout);
 			c = sqfs_copy(slot[0].obj);
 			if (c == NULL) {
@@ -806,6 +827,7 @@ int main(void)
 				slot[1].dstate = slot[0].dstate;
 				slot[1].desc = slot[0].desc;
 				slot[1].key = slot[0].key;
+				slot[1].stale = slot[0].stale;
 				slot[1].strm = NULL;
 				printf("COPY ");
 				do_probe(slot[0].obj, c);
